@@ -205,6 +205,30 @@ def check(db, rep):
     for op, fn_ in ar.items():
         _guard(r1, 'arith:' + op, lambda op=op, fn_=fn_: _table(H, 'ViArithmetic', op, [(Obj(int=7), Obj(int=3)), (Obj(int=2), Obj(int=5)), (Obj(int=0), Obj(int=4))],
                                                           lambda a, b: fn_(a['int'], b['int']), get=lambda v: v['int'] if isinstance(v, Obj) else v))
+    # arithmetic at the limits of the 32-bit element payload: the exact result, or a reported failure - never a wrapped value or undefined behaviour
+    def arith_range():
+        from engine.evalmini import SignedOverflow
+        lo, hi = -2 ** 31, 2 ** 31 - 1
+        bad, n_ = [], 0
+        for op, fn_ in ar.items():
+            for a_, b_ in ((hi, 1), (hi, -1), (lo, 1), (lo, -1), (65536, 65536), (65536, 32767), (-65536, 32768), (hi, hi), (lo, lo), (hi, 0), (46341, 46341), (46340, 46340)):
+                n_ += 1
+                exact = fn_(a_, b_)
+                try:
+                    res = H.run('ViArithmetic', op, [Obj(int=a_), Obj(int=b_)])
+                except SignedOverflow as e:
+                    bad.append('%s(%d, %d): %s' % (op, a_, b_, e))
+                    continue
+                if res[0] == 'value':
+                    got = res[1]['int'] if isinstance(res[1], Obj) else res[1]
+                    if got != exact:
+                        bad.append('%s(%d, %d) evaluates to %s, arithmetic gives %d' % (op, a_, b_, got, exact))
+                elif lo <= exact <= hi:
+                    bad.append('%s(%d, %d) fails although the result %d is representable' % (op, a_, b_, exact))
+                elif ('error',) not in res[1]:
+                    bad.append('%s(%d, %d) fails without reporting an error' % (op, a_, b_))
+        return bad[:1], n_
+    _guard(r1, 'arith:range', arith_range)
     cmpo = {'GREATER': lambda a, b: a > b, 'LESSER': lambda a, b: a < b, 'GREATER_OR_EQ': lambda a, b: a >= b, 'LESSER_OR_EQ': lambda a, b: a <= b}
     for op, fn_ in cmpo.items():
         _guard(r1, 'intpred:' + op, lambda op=op, fn_=fn_: _table(H, 'ViIntegerPredicate', op, [(Obj(int=1), Obj(int=1)), (Obj(int=1), Obj(int=2)), (Obj(int=2), Obj(int=1))], lambda a, b: fn_(a['int'], b['int'])))
